@@ -14,6 +14,7 @@ import pandas as pd
 from ..sim import Sim, Oracle
 from ..multi import Combined
 from ..worlds import uni as U
+from ..worlds import helpers as LH
 from .. import rng as R
 
 ID = "C09"
@@ -83,7 +84,7 @@ def generate(seed: int, tier: str = "quick") -> dict:
         ct = cur_tick(max(bar, 0))
         kind = rp.choice(
             ["add_by_tick"] * 4 + ["add"] * 2 + ["remove"] * 2 + ["collect", "buy", "sell", "swap", "even", "add_by_value",
-             "read_balance", "read_pos", "est_amount", "est_liq", "t2p", "p2t", "reject", "lend_out", "take_back"]
+             "read_balance", "read_pos", "est_amount", "est_liq", "t2p", "p2t", "reject", "lend_out", "take_back", "library"]
         )
         if n_created == 0 and kind in ("remove", "collect", "read_pos", "est_liq", "lend_out", "take_back"):
             kind = "add_by_tick"
@@ -157,6 +158,8 @@ def generate(seed: int, tier: str = "quick") -> dict:
         elif kind in ("lend_out", "take_back"):
             # a position handed to another market (and taken back): it leaves the pool's own balance, whichever token is token0
             o = {"op": "uni.transfer_out" if kind == "lend_out" else "uni.transfer_in", "a": {"pos": {"created": rp.randint(0, 7)}}}
+        elif kind == "library":  # orientation-free library helpers: their values are not compared, what follows them is
+            o = {"op": "lib.read_helpers", "a": {"which": LH.pick(rp)}}
         elif kind == "read_balance":
             o = {"op": "uni.read_balance", "a": {}}
         elif kind == "read_pos":
